@@ -368,6 +368,8 @@ func (w *spWorld) observe() map[string]any {
 		"longerx1": lookup(spPrefixes["x1"], apiutil.LOOKUP_LONGER),
 		"longer16": lookup("10.1.0.0/16", apiutil.LOOKUP_LONGER),
 		"shortx2":  lookup(spPrefixes["x2"], apiutil.LOOKUP_SHORTER),
+		// a bare host address inside x2 (and so inside x1): longest match over what the table holds
+		"host": lookup("10.1.0.200", apiutil.LOOKUP_EXACT),
 	}
 	obs["sess"] = sess
 	obs["views"] = views
